@@ -101,6 +101,12 @@ def extra_objects():
         out[f"x.{d}.temporal_select"] = lambda Q=Q: (lambda b: b.select(core.wrapper_cls(b)(datetime.time(1, 2, 3, tzinfo=datetime.timezone.utc)),
                                                                        core.wrapper_cls(b)(datetime.datetime(2020, 1, 2, tzinfo=datetime.timezone.utc)), core.wrapper_cls(b)(uuid.UUID(int=5)),
                                                                        core.wrapper_cls(b)(decimal.Decimal("1.50"))))(Q.from_(t1))
+        # the SAME element named several times in every list-valued clause (a set-based de-duplication would order by hash)
+        out[f"x.{d}.repeats"] = lambda Q=Q: (Q.from_(t1).force_index("ix_b", "ix_a", "ix_zeta").force_index("ix_a", "ix_m", "ix_b").use_index("ix_q", "ix_c").use_index("ix_c", "ix_k", "ix_q")
+                                             .select(t1.b, t1.a, t1.b, t1.zeta, t1.a).groupby(t1.zeta, t1.a, t1.zeta, t1.m, t1.a).orderby(t1.m, t1.a, t1.m, t1.q, t1.a)
+                                             .where(t1.a.isin(["w", "q", "w", "e", "q"])).for_update(of=("t2", "t1", "t2", "zeta", "t1")))
+        out[f"x.{d}.repeats_dml"] = lambda Q=Q: (Q.into(t1).columns("b", "a", "zeta", "m").insert(1, 2, 3, 4).insert(1, 2, 3, 4).on_conflict("zeta", "a", "m")
+                                                 .do_update("b", 1).do_update("zeta", 2).do_update("m", 3).do_update("q", 4))
         out[f"x.{d}.upsert_values"] = lambda Q=Q: Q.into(t1).insert(1, "a\\b", {"k": "v\\"}).on_conflict("a").do_update("b", "c\\d")
     return out
 
